@@ -119,6 +119,11 @@ def run(ctx):
         data = L.make_data(n_rows, n_cols, [], True)
         for r in range(n_rows):
             data[r, n_cols - 1] = 1000.0 * (n_cols - 1) + 500.0 + (cls[r] + 2)
+        if k % 2 == 1 and bool(np.all(data == np.round(data))):
+            # the caller's training matrix in an integer dtype (label-encoded tables): class labels are then integers, and the
+            # order in which library helpers return distinct labels must not decide which prior a class branch gets
+            data = data.astype(np.int64 if k % 4 == 1 else np.int32)
+            ctx.count('classifier-data-in-integer-dtype')
         s = L.Scenario(rng, n_rows, n_cols, True, fail_p=rng.choice([0.0, 0.3]))
         min_rows, min_cols = rng.choice([1, 2, 3, 6]), rng.choice([1, 2, 3])
         bounds = []
